@@ -48,7 +48,6 @@ var jobTable = map[string]jobSet{
 	"C01": {
 		quick: []Job{
 			{Scenario: "uni/N=1/k=5", Budgets: bs(B(1, 1), B(0, 2)), Split: 1},
-			{Scenario: "uni/N=2/k=7", Budgets: bs(B(1, 1), B(0, 2)), Split: 1},
 			{Scenario: "bidi/N=2/k1=3/k2=3", Budgets: bs(B(1, 0), B(0, 2)), Split: 1},
 			{Scenario: "burst2/N=2/k=2", Budgets: bs(B(0, 2)), Split: 1},
 			// chunked messages whose Recv calls time out between chunks and
@@ -66,6 +65,7 @@ var jobTable = map[string]jobSet{
 			// the connection may fail visibly, the prefix property stays
 			{Scenario: "uni/N=2/k=4/senderr", Budgets: bs(B(1, 1), B(0, 2)), Split: 1},
 			{Scenario: "bidi/N=2/k1=2/k2=2/senderr", Budgets: bs(B(0, 2)), Split: 1},
+			{Scenario: "uni/N=2/k=7", Budgets: bs(B(1, 1), B(0, 2)), Split: 1},
 		},
 		thorough: []Job{
 			{Scenario: "uni/N=2/k=4/senderr", Budgets: bs(B(2, 1), B(1, 2), B(0, 3)), Split: 2},
@@ -86,8 +86,6 @@ var jobTable = map[string]jobSet{
 	},
 	"C12": {
 		quick: []Job{
-			{Scenario: "close/N=2/k=2/closers=2", Budgets: bs(B(2, 0)), Split: 1},
-			{Scenario: "closestall/N=1/closers=2", Budgets: bs(B(2, 0)), Split: 1},
 			{Scenario: "closefull/N=1/closers=1", Budgets: bs(B(1, 0)), Split: 1},
 			// boosted (adaptive) resend timeouts: a Close that sat out a resend
 			// interval would now take several seconds
@@ -100,6 +98,8 @@ var jobTable = map[string]jobSet{
 			// direction still works tells the peer by a FIN like any Close
 			{Scenario: "kadead/N=2/kaside=c/k=1/onedir=s2c", Budgets: bs(B(0, 1)), Split: 1},
 			{Scenario: "kadead/N=2/kaside=s/k=3/onedir=c2s", Budgets: bs(B(0, 1)), Split: 1},
+			{Scenario: "closestall/N=1/closers=2", Budgets: bs(B(2, 0)), Split: 1},
+			{Scenario: "close/N=2/k=2/closers=2", Budgets: bs(B(2, 0)), Split: 1},
 		},
 		thorough: []Job{
 			{Scenario: "kadead/N=2/kaside=c/k=1/onedir=s2c", Budgets: bs(B(1, 1)), Split: 2},
@@ -298,7 +298,6 @@ func init() {
 			{Scenario: "kadead/N=1/ka=1s,3s/kaside=s/k=1", Budgets: bs(B(0, 1)), Split: 1},
 			{Scenario: "kadead/N=2/ka=1s,3s/kaside=c/k=4", Budgets: bs(B(0, 1)), Split: 1},
 			{Scenario: "kadead/N=1/ka=1s,8s/kaside=s/k=1", Budgets: bs(B(0, 1)), Split: 1},
-			{Scenario: "kadead/N=1/ka=2s,1s/k=2/until=5s", Budgets: bs(B(1, 1)), Filter: "tickeronly", Split: 1},
 			// a large window and an application that keeps sending at a
 			// pace below the ping interval: the window fills only slowly
 			// once the peer is gone
@@ -315,6 +314,7 @@ func init() {
 			{Scenario: "kalive/lat=250ms", Budgets: bs(B(1, 0)), Split: 1},
 			{Scenario: "kalive/lat=499ms", Budgets: bs(B(1, 0)), Split: 1},
 			{Scenario: "kalive/lat=0s", Budgets: bs(B(1, 0)), Split: 1},
+			{Scenario: "kadead/N=1/ka=2s,1s/k=2/until=5s", Budgets: bs(B(1, 1)), Filter: "tickeronly", Split: 1},
 		},
 		thorough: []Job{
 			{Scenario: "kadead/N=1/ka=2s,1s/k=2", Budgets: bs(B(1, 1)), Filter: "keepalive", Split: 2},
